@@ -117,8 +117,53 @@ pub fn blame(v: &Value) -> Value {
 
 /// {note: [...], base}: the serialized note text
 pub fn note_text(v: &Value) -> Value {
-    let log = note_from(&v["note"], v["base"].as_str().unwrap());
+    let mut log = note_from(&v["note"], v["base"].as_str().unwrap());
+    if v["humans"].as_bool().unwrap_or(false) {
+        // K6: session h1 was driven by Bob, session h2 names nobody
+        if let Some(p) = log.metadata.prompts.get_mut("h1h1h1h1h1h1h1h1") {
+            p.human_author = Some("Bob".to_string());
+        }
+    }
     json!({"text": log.serialize_to_string().unwrap()})
+}
+
+/// K6: {repo, file, split, hunk: {final_start, orig_start, size, commit_sha, orig_path}}
+pub fn split(v: &Value) -> Value {
+    let repo = git_ai::git::find_repository_in_path(v["repo"].as_str().unwrap()).expect("repo");
+    let h = &v["hunk"];
+    let fs = h["final_start"].as_u64().unwrap() as u32;
+    let os = h["orig_start"].as_u64().unwrap() as u32;
+    let size = h["size"].as_u64().unwrap() as u32;
+    let sha = h["commit_sha"].as_str().unwrap().to_string();
+    let hunk = BlameHunk {
+        range: (fs, fs + size - 1),
+        orig_range: (os, os + size - 1),
+        abbrev_sha: sha.chars().take(7).collect(),
+        commit_sha: sha,
+        original_author: "Alice".into(),
+        author_email: "a@b".into(),
+        author_time: 0,
+        author_tz: "+0000".into(),
+        ai_human_author: None,
+        committer: "Alice".into(),
+        committer_email: "a@b".into(),
+        committer_time: 0,
+        committer_tz: "+0000".into(),
+        is_boundary: false,
+        orig_path: h["orig_path"].as_str().map(|s| s.to_string()),
+    };
+    let mut options = GitAiBlameOptions::default();
+    options.split_hunks_by_ai_author = v["split"].as_bool().unwrap();
+    match verif_hooks::populate_ai_human_authors(&repo, vec![hunk], v["file"].as_str().unwrap(), &options) {
+        Ok(hunks) => {
+            let out: Vec<Value> = hunks
+                .iter()
+                .map(|h| json!({"range": [h.range.0, h.range.1], "orig": [h.orig_range.0, h.orig_range.1], "sha": h.commit_sha, "orig_path": h.orig_path, "person": h.ai_human_author}))
+                .collect();
+            json!({"ok": true, "hunks": out})
+        }
+        Err(e) => json!({"ok": false, "error": e.to_string()}),
+    }
 }
 
 /// K4: {repo, file, start, end}: the porcelain reader on whatever the configured git prints for `blame`
